@@ -256,11 +256,11 @@ def forget_queue(eng, st):
 
 
 LOOPS_SYS = {
-    0: Loop(inv=lambda c, L: clockfloor(c) >= 0, havoc_fields=[('main', '__clockfloor'), ('cls:SystemClock', '_run_sched')],
+    0: Loop(early_exit=True, inv=lambda c, L: clockfloor(c) >= 0, havoc_fields=[('main', '__clockfloor'), ('cls:SystemClock', '_run_sched')],
             kinds={'now': 'real'}, havoc_hook=forget_queue),
-    1: Loop(inv=lambda c, L: clockfloor(c) >= 0, havoc_fields=[('main', '__clockfloor'), ('cls:SystemClock', '_run_sched')],
+    1: Loop(early_exit=True, inv=lambda c, L: clockfloor(c) >= 0, havoc_fields=[('main', '__clockfloor'), ('cls:SystemClock', '_run_sched')],
             havoc_hook=forget_queue),
-    2: Loop(inv=lambda c, L: z3.And(clockfloor(c) >= 0, L.now <= clockfloor(c),
+    2: Loop(early_exit=True, inv=lambda c, L: z3.And(clockfloor(c) >= 0, L.now <= clockfloor(c),
                                     fresh_deadline(secs_identity)(c, L)),
             havoc_fields=[('main', '__clockfloor'), ('cls:SystemClock', '_run_sched')], kinds={'now': 'real'},
             havoc_hook=forget_queue),
@@ -402,10 +402,10 @@ TFIELDS = [('self', '_run_sched'), ('self', '_tempo'), ('self', '_beat_dur'),
            ('self', '_base_seconds'), ('self', '_base_beats'), ('self', '_beats'),
            ('main', '__clockfloor')]
 LOOPS_T = {
-    0: Loop(inv=lambda c, L: z3.BoolVal(True), havoc_fields=TFIELDS, kinds={'elapsed_beats': 'real'},
+    0: Loop(early_exit=True, inv=lambda c, L: z3.BoolVal(True), havoc_fields=TFIELDS, kinds={'elapsed_beats': 'real'},
             havoc_hook=forget_queue),
-    1: Loop(inv=lambda c, L: z3.BoolVal(True), havoc_fields=TFIELDS, havoc_hook=forget_queue),
-    2: Loop(inv=lambda c, L: fresh_deadline(beats_to_secs_now)(c, L), havoc_fields=TFIELDS,
+    1: Loop(early_exit=True, inv=lambda c, L: z3.BoolVal(True), havoc_fields=TFIELDS, havoc_hook=forget_queue),
+    2: Loop(early_exit=True, inv=lambda c, L: fresh_deadline(beats_to_secs_now)(c, L), havoc_fields=TFIELDS,
             kinds={'elapsed_beats': 'real'}, havoc_hook=forget_queue),
     3: Loop(inv=lambda c, L: z3.And(tperform(c, L), tlt(c, L)),
             havoc_fields=[('main', '_in_awake_call'), ('self', '_beats'), ('self', '_tempo'),
